@@ -54,7 +54,26 @@ def fix_case(dialect, templater, style, label, source, rules, extra, want):
     out = {"exc": None, "codes0": [], "clean": False, "fixed": None, "changed": False, "unexpected": [], "n_fixable": 0}
     try:
         lnt = linter(dialect, templater, style, rules, extra)
-        lf = lnt.lint_string(source, fname="t.sql", fix=True)
+        events = None
+        if "events" in want:
+            import sqlfluff.core.linter.linter as lmod
+            orig_apply = lmod.apply_fixes
+            events = []
+
+            def spy(tree, dialect_obj, code, anchor_info, **kw):
+                res = orig_apply(tree, dialect_obj, code, anchor_info, **kw)
+                fx = repr(sorted((k, [repr(f) for f in info.fixes]) for k, info in anchor_info.items()))
+                events.append((code, (tree.raw, repr(tuple(tree.source_fixes))), fx, (res[0].raw, repr(tuple(res[0].source_fixes))), bool(res[3])))
+                return res
+            lmod.apply_fixes = spy
+        try:
+            lf = lnt.lint_string(source, fname="t.sql", fix=True)
+        finally:
+            if events is not None:
+                lmod.apply_fixes = orig_apply
+        if events is not None:
+            out["events"] = events
+            out["final_tree"] = None if lf.tree is None else (lf.tree.raw, repr(tuple(lf.tree.source_fixes)))
         vs = lf.get_violations(filter_ignore=False, filter_warning=False)
         out["codes0"] = [v.rule_code() for v in vs]
         out["unexpected"] = [v.rule_code() for v in vs if v.desc().startswith("Unexpected exception")]
@@ -86,6 +105,8 @@ def fix_case(dialect, templater, style, label, source, rules, extra, want):
             from sqlfluff.core.templaters.base import TemplatedFile
             toks, _ = Lexer(config=lnt.config).lex(TemplatedFile(source_str=fixed, fname="t.sql"))
             out["relex"] = [(t.raw, t.get_type()) for t in toks if not t.is_meta]
+            toks0, _ = Lexer(config=lnt.config).lex(TemplatedFile(source_str=src, fname="t.sql"))
+            out["orig_lex"] = sorted(set((t.raw, t.get_type()) for t in toks0 if not t.is_meta))
             out["tree_tokens"] = [(s.raw, s.get_type()) for s in lf.tree.raw_segments if not s.is_meta]
             # lexer type of each fixed-tree leaf when lexed alone (parser-assigned types differ from lexer types by design)
             alone = []
